@@ -158,6 +158,18 @@ func (s *Sess) wrap(x string, w int, signed bool) string {
 	return fmt.Sprintf("(mod %s %s)", x, pow2s(w))
 }
 
+// wrapAddSub wraps the exact sum/difference of two in-range values: the
+// result is off by at most one modulus, so an ite replaces mod (friendlier to
+// the solvers' linear arithmetic and to E-matching).
+func (s *Sess) wrapAddSub(x string, w int, signed bool) string {
+	m := pow2s(w)
+	if signed {
+		h := pow2s(w - 1)
+		return fmt.Sprintf("(let ((ws %s)) (ite (>= ws %s) (- ws %s) (ite (< ws (- %s)) (+ ws %s) ws)))", x, h, m, h, m)
+	}
+	return fmt.Sprintf("(let ((ws %s)) (ite (>= ws %s) (- ws %s) (ite (< ws 0) (+ ws %s) ws)))", x, m, m, m)
+}
+
 func isConstTerm(t string) (*big.Int, bool) {
 	if strings.HasPrefix(t, "(- ") && strings.HasSuffix(t, ")") {
 		v, ok := new(big.Int).SetString(t[3:len(t)-1], 10)
@@ -232,12 +244,12 @@ func (fe *FnEnc) binopTerm(op token.Token, a, b Val, ta, tb, tr types.Type, pos 
 		if fe.top.ct != nil && fe.top.ct.NoOverflow {
 			fe.noOverflow("(+ "+at+" "+bt+")", w, signed, pos)
 		}
-		return s.wrap("(+ "+at+" "+bt+")", w, signed)
+		return s.wrapAddSub("(+ "+at+" "+bt+")", w, signed)
 	case token.SUB:
 		if fe.top.ct != nil && fe.top.ct.NoOverflow {
 			fe.noOverflow("(- "+at+" "+bt+")", w, signed, pos)
 		}
-		return s.wrap("(- "+at+" "+bt+")", w, signed)
+		return s.wrapAddSub("(- "+at+" "+bt+")", w, signed)
 	case token.MUL:
 		if fe.top.ct != nil && fe.top.ct.NoOverflow {
 			fe.noOverflow("(* "+at+" "+bt+")", w, signed, pos)
